@@ -45,7 +45,19 @@ def check(chk):
     chk.rule('C08.token', 'Murmur3Token.hash_fn normalises MIN_LONG only; MD5Token = abs(varint_unpack(md5(key).digest())); BytesToken = key; partitioner -> token class table')
     ref = load_ref()
     repo = chk.repo
-    pm = repo.mod(MURMUR)
+    pm_cur = repo.mod(MURMUR)
+    # the Python implementation is compared, as an expression tree per key length, with the reference source spec/murmur3_reference.py; the structural
+    # rules below (constants, rotations, tail table, finalisation ...) tie that reference - and the C source - to the specification table
+    from .. import murmur as _mm
+    pm = _mm.reference_module()
+    chk.rule('C08.terms', 'murmur3.py computes, for every key length 0..48, the same expression over the blocks and tail bytes as the reference source (helpers followed, constants folded); '
+                          'rotl64 / fmix / truncate_int64 agree with the reference on sample values')
+    bad_len, bad_op, tc_, tr_ = _mm.compare(pm_cur, pm)
+    chk.judge(not bad_len, 'C08.terms', pm_cur.func('_murmur3'), '_murmur3: same expression as the reference for key lengths 0..48',
+              'the hash expression differs from the reference for key lengths %s; first difference (current <> reference): %s' %
+              (bad_len[:8], _mm.first_difference(tc_[bad_len[0]], tr_[bad_len[0]]) if bad_len else ''))
+    chk.judge(not bad_op, 'C08.terms', pm_cur.func('fmix'), 'rotl64 / fmix / truncate_int64: same values as the reference on %d samples' % (len(_mm.SAMPLES_X) * (2 + len(_mm.SAMPLES_R))),
+              'operator results differ from the reference for %s' % (bad_op[:3],))
     folder = Folder(pm)
     f = pm.func('_murmur3')
     try:
@@ -107,10 +119,10 @@ def check(chk):
     ctab = set((v, i, s) for c, v, i, s in cf['tail'])
     cbad = [L for L in range(16) if set((v, i, s) for c, v, i, s in cf['tail'] if c <= L) != ref.tail_table(L)]
     chk.judge(not cbad and cf['switch'], 'C08.tail', (CMURMUR, 'MurmurHash3_x64_128', 0), 'C: fall-through case table equals the reference for each tail length', 'C tail table differs for tail lengths %s' % cbad)
-    bt = pm.func('body_and_tail')
+    bt = pm_cur.func('body_and_tail')
     unpk = [n for n in body_walk(bt) if isinstance(n, ast.Call) and src(n.func) == 'struct.unpack_from' and "'b'" in src(n.args[0])]
     from .c07 import body_tail_facts
-    bt_bad8, signed8 = body_tail_facts(pm, bt)
+    bt_bad8, signed8 = body_tail_facts(pm_cur, bt)
     okp = signed8 and not bt_bad8 and operands == set(['tail[i]'])
     chk.judge(okp, 'C08.tail', bt, 'Python: tail bytes unpacked with the signed format b and used unmasked (sign-extended like a Java byte)',
               'tail bytes are not sign-extended (%s / operand %s): a key whose last len %% 16 bytes contain a byte >= 0x80 gets a different token than Cassandra assigns' % ([src(n.args[0]) for n in unpk], sorted(operands)))
@@ -144,7 +156,7 @@ def check(chk):
     chk.judge(tailseq == want, 'C08.final', f, 'finalisation: ^= len, cross-add, fmix both, h1 += h2, wrap', 'finalisation differs: %s' % tailseq)
     chk.judge('h1 ^= len; h2 ^= len; h1 += h2; h2 += h1; h1 = fmix(h1); h2 = fmix(h2); h1 += h2;' in cf['final'], 'C08.final', (CMURMUR, 'MurmurHash3_x64_128', 0), 'C finalisation sequence', 'C finalisation differs')
     chk.judge(src(f.body[0]) == 'h1 = h2 = 0' and cf['seed0'], 'C08.final', f, 'seed 0', 'seed differs')
-    tr = pm.func('truncate_int64')
+    tr = pm_cur.func('truncate_int64')
     try:
         consts = dict((k, folder.module_const(k)) for k in ('INT64_MAX', 'INT64_MIN', 'INT64_OVF_OFFSET', 'INT64_OVF_DIV'))
     except Unfoldable as e:
@@ -154,7 +166,7 @@ def check(chk):
     bad_tr = []
     for xv in (0, 1, -1, 2 ** 63 - 1, 2 ** 63, 2 ** 63 + 5, -2 ** 63, -2 ** 63 - 1, 2 ** 64, 2 ** 64 + 7, -2 ** 64 - 3, 3 * 2 ** 64 + 11, 2 ** 127 + 12345):
         try:
-            outs8 = _I8(pm).run_all(tr, {'x': xv})
+            outs8 = _I8(pm_cur).run_all(tr, {'x': xv})
         except Exception as e8:
             raise AnalysisError('truncate_int64 could not be interpreted: %s' % e8)
         for o8 in outs8:
@@ -191,7 +203,7 @@ def check(chk):
               'normalisation differs from Murmur3Partitioner.normalize: %s' % '; '.join(bad))
     imp = [n for n in ast.walk(meta.tree) if isinstance(n, ast.ImportFrom) and n.module == 'cassandra.murmur3' and [a.name for a in n.names] == ['murmur3']]
     chk.judge(len(imp) == 1, 'C08.token', (META, 'import', imp[0].lineno if imp else 0), 'murmur3 comes from cassandra.murmur3 (C extension or _murmur3)', 'murmur3 source changed', nontrivial=False)
-    tail_ = [st for st in pm.tree.body if isinstance(st, ast.Try)]
+    tail_ = [st for st in pm_cur.tree.body if isinstance(st, ast.Try)]
     ok = len(tail_) == 1 and 'from cassandra.cmurmur3 import murmur3' in src(tail_[0]) and any('murmur3 = _murmur3' in src(h) for h in tail_[0].handlers)
     chk.judge(ok, 'C08.token', (MURMUR, 'murmur3', 0), 'murmur3 = C extension if importable, else _murmur3', 'implementation selection changed', nontrivial=False)
     md = meta.func('MD5Token.hash_fn')
